@@ -124,6 +124,7 @@ func c17BuildNoLFFile(ca *CA, n int, path string) (listed, unlisted *big.Int, en
 
 type c17Result struct {
 	N        int
+	PeakRaw  uint64 // highest HeapAlloc seen by the fast sampler (includes garbage not yet collected; GC percent is 20)
 	PeakLive uint64
 	Baseline uint64
 	Seconds  float64
@@ -266,12 +267,29 @@ func c17Sampled(r *Run, n int, label string, f func() (string, error)) (c17Resul
 			time.Sleep(5 * time.Millisecond)
 		}
 	}()
+	// a second, fast sampler without forced collections: a buffer that lives for a few milliseconds only (a whole file read
+	// into memory and dropped again) never survives to a forced collection, but it is in HeapAlloc while it exists
+	var rawPeak uint64
+	doneR := make(chan struct{})
+	go func() {
+		defer close(doneR)
+		var m runtime.MemStats
+		for atomic.LoadInt32(&stop) == 0 {
+			runtime.ReadMemStats(&m)
+			if m.HeapAlloc > atomic.LoadUint64(&rawPeak) {
+				atomic.StoreUint64(&rawPeak, m.HeapAlloc)
+			}
+			time.Sleep(300 * time.Microsecond)
+		}
+	}()
 	t0 := time.Now()
 	verdicts, err := f()
 	res.Seconds = time.Since(t0).Seconds()
 	atomic.StoreInt32(&stop, 1)
 	<-doneS
+	<-doneR
 	res.PeakLive = atomic.LoadUint64(&peak)
+	res.PeakRaw = atomic.LoadUint64(&rawPeak)
 	res.Verdicts = verdicts
 	return res, err
 }
@@ -310,11 +328,14 @@ func runC17(r *Run) {
 	// a DER CRL without any 0x0A octet before its signature (the PEM detection reads "the first line" of the file)
 	{
 		a, errA := c17MeasureNoLF(r, small)
-		b, errB := c17MeasureNoLF(r, large)
+		b, errB := c17MeasureNoLF(r, large*12/5) // 1.2 (2.4) million entries: a file of 33 (67) MB
 		ok := errA == nil && errB == nil && a.Verdicts == "reject/accept" && b.Verdicts == "reject/accept"
 		r.Eval("der-without-0x0a", ok)
 		r.Count("combo:der-without-0x0a")
 		growth := int64(b.PeakLive) - int64(a.PeakLive)
+		if g := int64(b.PeakRaw) - int64(a.PeakRaw); g > growth {
+			growth = g
+		}
 		r.Sample(map[string]interface{}{"combo": "der without 0x0a, file", "small": a, "large": b, "growth_bytes": growth, "err_small": fmt.Sprint(errA), "err_large": fmt.Sprint(errB)})
 		if !ok {
 			r.Violate("C17 large-crl-not-processed der-without-0x0a", fmt.Sprintf("N=%d: %v %s; N=%d: %v %s", a.N, errA, a.Verdicts, b.N, errB, b.Verdicts), nil)
